@@ -26,6 +26,17 @@ JointSize(ver, j) == (j.name + 1) + 4 + (4 + j.rot * KeySize(ver)) + (4 + j.pos 
 ConstraintSize == 1 + 1 + 16 + 12 + 16 + 12 + 12 + 4 * 4
 RECURSIVE JointsSize(_, _)
 JointsSize(ver, js) == IF js = <<>> THEN 0 ELSE JointSize(ver, Head(js)) + JointsSize(ver, Tail(js))
+\* signed 32-bit little-endian without leaving TLC's 32-bit integers
+S32LE(n) == IF n >= 0 THEN LE(n, 4)
+            ELSE LET m == (n + 2147483647) + 1 IN <<m % 256, (m \div 256) % 256, (m \div 65536) % 256, (m \div 16777216) + 128>>
+U32LE(n) == S32LE(n)
+PriorityAt == 4                                   \* after the two U16 version fields
+LoopAt(emote) == 12 + (emote + 1) + 8             \* after duration, emote name, loop in / out points
+HandPoseAt(emote) == HeaderSize(emote) - 4
+\* 0-based offset of the priority of joint k: behind its name
+RECURSIVE JointPriorityAt(_, _, _, _)
+JointPriorityAt(ver, emote, js, k) == IF k = 1 THEN HeaderSize(emote) + 4 + (js[1].name + 1)
+                                      ELSE JointSize(ver, js[1]) + JointPriorityAt(ver, emote, Tail(js), k - 1) - 0
 JointCountAt(emote) == HeaderSize(emote)                       \* 0-based offset of the U32 joint count
 ConstraintCountAt(ver, emote, js) == HeaderSize(emote) + 4 + JointsSize(ver, js)
 AnimSize(ver, emote, js, ncons) == ConstraintCountAt(ver, emote, js) + 4 + ncons * ConstraintSize
